@@ -480,7 +480,7 @@ impl Prop for Histories {
     }
     fn rule() -> &'static str {
         "bounded-exhaustive: every sequence of length <= L (quick 5, thorough 6; complete Reader and index-less reader: one more) over \
-         {iterate j items (j=0,1,2,all), a new iterator consumed through nth(s) (s=0,1 — what skip / step_by use), read_nth(i) i in 0..=n, seek(k) k in 0..=n, shape_count} on ShapeReader::with_shx; {iterate j \
+         {iterate j items (j=0,1,2,all), a new iterator consumed through nth(s) (s=0,1 — what skip / step_by use), a new iterator consumed through last() and through count() (own alphabet, one op shorter), read_nth(i) i in 0..=n, seek(k) k in 0..=n, shape_count} on ShapeReader::with_shx; {iterate j \
          pairs, seek(k), shape_count} on the complete Reader (rows carry their index); {iterate j, read_nth(i)} on a reader without index; the ShapeReader and Reader histories also through from_path on real files (one op shorter, records of ~3 KB so that the file spans BufReader's 8 KiB buffer); files with \
          n=3 (thorough also 4) records of pairwise different sizes and of equal sizes. Oracle: reference state machine (read_nth(i) -> \
          record i / None; count constant; iteration after open / successful read_nth / seek(k) yields exactly 0.. / 0.. / k.. then ends; \
